@@ -25,7 +25,8 @@ PROP = {
                   "After every action: file bytes, rules_count of the status API, the checksum in the metadata, a "
                   "re-parse of the stored file, the inode of unchanged files, absence of temporary files and the "
                   "block/allow decision for one probe name per list version are compared with the model. "
-                  "Exploration: no absence claim.",
+                  "Exploration: no absence claim."
+                  " TestVFC15ParserAfterManyRules puts the generated texts behind 100-3000 ordinary rules; TestVFC15RefreshVsAdmin runs an admin operation on another list inside the list server's handler of a drawn download (the rebuilds it queues are carried out afterwards by the harness-owned worker queue, as the scheduled refresh's goroutine would).",
     "level_note": "Where the statement is silent the check accepts any reading and counts the text as ambiguous: "
                   "Unicode (non-ASCII) white space at line ends, VT/FF at line ends, control bytes inside comments, "
                   "an HTML opening after accepted rules, a leading byte-order mark, lines of 64 KiB and more, and "
